@@ -70,16 +70,19 @@ def run(ctx):
         return
     thorough = ctx.tier == "thorough"
     ngen = "1500" if thorough else "120"
-    env = {"VERIF_REPO": vcheck.REPO, "C06_BUDGET_S": "1500" if thorough else "40"}
+    env = {"VERIF_REPO": vcheck.REPO, "C06_BUDGET_S": "3000" if thorough else "60"}
     rc, out, err = ctx.run([binp, "search", "-seed", str(ctx.seed), "-tier", ctx.tier, "-n", ngen],
-                           timeout=2400 if thorough else 200, env=env)
+                           timeout=4800 if thorough else 300, env=env)
     rows = [json.loads(l) for l in out.splitlines() if l.startswith("{")]
     summ = [r["summary"] for r in rows if "summary" in r]
     rows = [r for r in rows if "id" in r]
     if rc != 0 or not rows or not summ:
         ctx.broken.append(("harness-run", "c06 search failed rc=%d %s" % (rc, err[-800:])))
         return
-    ctx.rule = ("inputs: every 8th (thorough: every) string literal of syntax/{filetests,printer,parser}_test.go (slice rotated by "
+    ctx.rule = ("FIXED ENUMERATION every run: every byte-prefix of a catalogue of ~100 constructs (one instance of every clause, "
+                "operator family and node type in every variant) x 5 variants x RecoverErrors(0..3) x Parse/StmtsSeq/InteractiveSeq "
+                "(+WordsSeq/Document/Arithmetic); prefixes at every token boundary of a 1/32 corpus slice (thorough: whole corpus) under "
+                "RecoverErrors(1,3); then: every 8th (thorough: every) string literal of syntax/{filetests,printer,parser}_test.go (slice rotated by "
                 "seed) + pinned witnesses; per seed N each of: grammar-generated programs mixing bash/mksh/zsh/bats/POSIX constructs, "
                 "POSIX-only programs, 1-3 byte-level mutations of corpus and of generated programs, random bytes (uniform / metachar "
                 "soup / keyword soup), nesting of one construct 1..40 deep (closed or not), generated words, arithmetic expressions; "
